@@ -19,6 +19,13 @@ func init() { registry["C01"] = c01Oracle }
 const sqlLookaheadBytes = "'\"`\\$-/*!.0123456789eExXbBqQnNuU&|<>=:@#[(;"
 
 func c01Oracle(c ev.Case) Res {
+	if c.Kind == "stack" {
+		ok, msg := runStackChild(c.In, c.N, 2)
+		if !ok {
+			return fail("unit %q repeated to %d bytes: %s", c.In, c.N, msg)
+		}
+		return Res{NT: true, Class: "stack_probe"}
+	}
 	s := c.In
 	if c.Kind == "long" {
 		s = strings.Repeat(c.In, c.N/max(1, len(c.In))) + c.In2
@@ -66,8 +73,37 @@ func TestC01(t *testing.T) {
 	defer c.Finish()
 	judge := func(w *Worker, s string) { w.Judge(c01Case(s)) }
 
+	// stack probes: a scanner or folder that handles the next token by calling itself needs one frame per token
+	var probes []ev.Case
+	seenUnit := map[string]bool{}
+	addUnit := func(u string) {
+		if !seenUnit[u] {
+			seenUnit[u] = true
+			probes = append(probes, ev.Case{Kind: "stack", In: u, N: 256 << 10})
+		}
+	}
+	for _, a := range gen.AlphaSQL {
+		addUnit(a)
+	}
+	for _, h := range sqlHostile {
+		addUnit(h)
+		addUnit(h + " ")
+	}
+	for _, a := range tokenAtoms {
+		for _, b := range tokenAtoms {
+			addUnit(a + " " + b + " ")
+			if thorough() {
+				addUnit(a + b)
+			}
+		}
+	}
+	for _, u := range []string{"'a' ", "'a'", "\"a\"", "`a`", "/**/", "/*a*/ ", "--\n", "#\n", "1,", "(1)", "((", "))", "()", "a.b.", "@a ", "@@a ", "$a$b$a$", "$$a$$", "q'(a)'", "x'41'", "n'a'", "u&'a'", "1e1 ", "0x1 ", "1.1.", "{a}", "[a]", "a;b;", "- - ", "+ + ", "not not ", "! ! ", "~ ~ ", "select 1 union ", "1 or 1=1 or ", "(select ", "case when ", "'a'||", "'a' 'b' ", "a b c ", "\\N ", "\xa0", "\x00 ", "1;", ";;", "/*!", "/*! */", "*/"} {
+		addUnit(u)
+	}
+	p := c.rec.NewPart("stack_probes", fmt.Sprintf("%d repetition inputs (alphabet symbols, construct openers, complete literals, every ordered pair of token atoms) at 256 kB in child processes with a 2 MB stack limit", len(probes)), false, true, "")
+	c.ParRange(p, int64(len(probes)), func(w *Worker, i int64) { w.JudgeSlow(probes[i]) })
 	L := pick(4, 5)
-	p := c.rec.NewPart("bytes_exhaustive", fmt.Sprintf("every string of length 0..%d over the %d-symbol SQL alphabet", L, len(gen.AlphaSQL)), false, true, "")
+	p = c.rec.NewPart("bytes_exhaustive", fmt.Sprintf("every string of length 0..%d over the %d-symbol SQL alphabet", L, len(gen.AlphaSQL)), false, true, "")
 	c.EnumSeq(p, gen.AlphaSQL, "", 0, L, judge)
 	Lc := pick(5, 6)
 	p = c.rec.NewPart("bytes_core_exhaustive", fmt.Sprintf("every string of length %d..%d over the %d-symbol core alphabet", L+1, Lc, len(gen.CoreSQL)), false, true, "")
@@ -118,5 +154,5 @@ func TestC01(t *testing.T) {
 	c.Rapid(p, 4, pick(15000, 300000), func(rt *rapid.T, sh int) ev.Case {
 		return c01Case(gen.Mutate(rt, rapid.SampledFrom(corp().SQL).Draw(rt, "base"), gen.FragSQL))
 	})
-	c.rec.Require("returns_true", "returns_false")
+	c.rec.Require("returns_true", "returns_false", "stack_probe")
 }
